@@ -293,6 +293,7 @@ def build_cases(tier):
             add(R=R, K=1, C=1, filters=(sort_filter(1, R - 1),), obj_filt=(0,), con_filt=(-1,))
     add(R=3, K=2, filters=(sort_filter(0, 1), cvar_filter(0.5, sort=(1,))), obj_filt=(0, 1))   # two filters, one objective each
     add(R=2, K=2, C=2, estimators=("stddev", "mean"), obj_est=(1,), con_est=(1,))   # one index for all functions
+    add(R=3, K=1, B=2, estimators=("stddev",))   # one estimator object serves two vectors with different failure counts
     for est in ("mean", "stddev"):
         for base in (1e8, -3e7):
             n += 1
